@@ -186,6 +186,7 @@ BUILTIN_CLASSES = [
     ('asyncio.DefaultEventLoopPolicy', ['object']),
     ('asyncio.AbstractEventLoop', ['object']),
     ('tuple_namedtuple', ['tuple']),
+    ('contextvars.ContextVar', ['object']),
 ]
 
 EXTERNAL_ALIASES = {
@@ -215,6 +216,7 @@ EXTERNAL_ALIASES = {
     'asyncio.DefaultEventLoopPolicy': 'asyncio.DefaultEventLoopPolicy',
     'asyncio.AbstractEventLoop': 'asyncio.AbstractEventLoop',
     'types.MethodType': 'method',
+    'contextvars.ContextVar': 'contextvars.ContextVar', 'aiocontextvars.ContextVar': 'contextvars.ContextVar',
 }
 
 
